@@ -81,6 +81,7 @@ static std::string errorRecord(StringRef m) {
   if (m == "missing 'depth' variable assignment") return "E 32 -";
   if (m == "duplicate rule") return "E 33 -";
   if (m == "missing 'command' variable assignment") return "E 34 -";
+  if (m == "include nesting too deep") return "E 36 -";
   return "E 99 " + hex(m.str());
 }
 
